@@ -148,16 +148,16 @@ macro_rules! impl_aliases {
 
 /* Customized Language with expando_char / pre_process_pattern */
 // https://en.cppreference.com/w/cpp/language/identifiers
-// Due to some issues in the tree-sitter parser, it is not possible to use
-// unicode literals in identifiers for C/C++ parsers
-impl_lang_expando!(C, language_c, '_');
-impl_lang_expando!(Cpp, language_cpp, '_');
+// NB: the expando must not be a char allowed in meta variable names: with `_` the
+// spellings `$_`, `$_X` and `$$_` were read as a literal, an any-node capture and `$$$`
+impl_lang_expando!(C, language_c, '𐀀');
+impl_lang_expando!(Cpp, language_cpp, '𐀀');
 // https://docs.microsoft.com/en-us/dotnet/csharp/language-reference/language-specification/lexical-structure#643-identifiers
 // all letter number is accepted
 // https://www.compart.com/en/unicode/category/Nl
 impl_lang_expando!(CSharp, language_c_sharp, 'µ');
 // https://www.w3.org/TR/CSS21/grammar.html#scanner
-impl_lang_expando!(Css, language_css, '_');
+impl_lang_expando!(Css, language_css, 'µ');
 // https://github.com/elixir-lang/tree-sitter-elixir/blob/a2861e88a730287a60c11ea9299c033c7d076e30/grammar.js#L245
 impl_lang_expando!(Elixir, language_elixir, 'µ');
 // we can use any Unicode code point categorized as "Letter"
